@@ -96,10 +96,39 @@ Qed.
 (* released_when_space / progress_while_stuck: a state satisfying their hypotheses with a parked producer *)
 Example w_released_hyp :
   let c := wc Mem true false in let s := final c [LOffer 0 4; LOffer 1 2; LRead] in
-  reachable_fit c s /\ stopped s = false /\ lock s = Free /\ stuck s /\ mu s = 10 /\
+  reachable_fit c s /\ stopped s = false /\ lock s = Free /\ stuck s /\ mu s = 11 /\
   pget 1%nat (prods s) = Some (PInSelect 2).
 Proof.
   split; [exists [LOffer 0 4; LOffer 1 2; LRead]; split; [repeat constructor; simpl; intros; discriminate|vm_compute; reflexivity]|].
   vm_compute. repeat split; try reflexivity.
   exists 1%nat, (PInSelect 2). split; [reflexivity|]. intros r; discriminate.
 Qed.
+
+(* ---- strengthening round -------------------------------------------------------------------------------------- *)
+(* two consumers parked in Read, two enqueues back to back: each enqueue signals one consumer *)
+Example w_two_consumers :
+  let c := wc Mem false false in
+  let s := final c [LCRead 0; LCRead 1; LOffer 0 1; LOffer 1 1] in
+  cons s = [(0%nat, true); (1%nat, true)] /\ items s = [(0%nat, 1); (1%nat, 1)] /\
+  let s' := final c [LCRead 0; LCRead 1; LOffer 0 1; LOffer 1 1; LCWake 0; LCWake 1] in
+  cons s' = [] /\ hand s' = [0; 1]%nat /\ items s' = [].
+Proof. vm_compute. repeat split; reflexivity. Qed.
+
+(* Shutdown wakes every parked consumer; each then returns false *)
+Example w_shutdown_wakes_all :
+  let c := wc Pers false false in
+  let s := final c [LCRead 0; LCRead 1; LCRead 2; LShutdown] in
+  cons s = [(0%nat, true); (1%nat, true); (2%nat, true)] /\
+  option_map snd (step c s (LCWake 1)) = Some c_closed.
+Proof. vm_compute. repeat split; reflexivity. Qed.
+
+(* persistent queue, the LAST queued item is unreadable: the Read drops it, re-synchronises the size and signals
+   the blocked producer, then parks *)
+Example w_last_item_corrupt :
+  let c := wc Pers true false in
+  let s := final c [LOffer 0 3; LOffer 1 1; LOffer 2 2; LCorrupt 1; LRead] in
+  size s = 4 /\ items s = [(1%nat, 1)] /\ waiting s = 1 /\
+  let s' := final c [LOffer 0 3; LOffer 1 1; LOffer 2 2; LCorrupt 1; LRead; LCRead 7] in
+  size s' = 0 /\ items s' = [] /\ dropped s' = [1%nat] /\ hand s' = [0%nat] /\ tok s' = true /\ waiting s' = 0 /\
+  cons s' = [(7%nat, false)].
+Proof. vm_compute. repeat split; reflexivity. Qed.
